@@ -79,7 +79,7 @@ def closure(index, specs, fname):
 def contract_text(sig, clauses, prop, linemap, lines, who):
     lines.append(sig)
     for cl in clauses:
-        if cl.kind == 'ensures' and not cl.enabled(prop):
+        if cl.kind in ('ensures', 'requires') and not cl.enabled(prop):
             continue
         kw = {'requires': '__CPROVER_requires', 'ensures': '__CPROVER_ensures', 'assigns': '__CPROVER_assigns'}[cl.kind]
         lines.append('  %s(%s)' % (kw, cl.expr))
@@ -102,7 +102,7 @@ def gen_unit(gen_dir, index, specs, fname, prop, path, extra_harness=''):
         ent = index['functions'].get(g)
         if ent is None or ent['status'] != 'ok':
             raise InfraError('callee %s of unit %s was not extracted' % (g, fname))
-        contract_text(ent['sig'], specs.contracts[g], None, linemap, L, g)
+        contract_text(ent['sig'], specs.contracts[g], prop, linemap, L, g)
     fnlines = {}
     for f in defined:
         text = open(os.path.join(gen_dir, 'fn', f + '.c')).read().rstrip('\n').split('\n')
@@ -120,7 +120,7 @@ def gen_unit(gen_dir, index, specs, fname, prop, path, extra_harness=''):
     ret, name, params = split_params(index['functions'][fname]['sig'])
     L.append('void bg_harness(void) {')
     L.append('  G_P = nondet_vertex(); G_Q = nondet_vertex(); bg_exc = nondet_int();')
-    L.append('  bg_scratch_row.valid = nondet_bg_bool(); bg_scratch_row.owner = 0; bg_scratch_row.from = 0; bg_cur_adj = 0;')
+    L.append('  bg_scratch_row.valid = nondet_bg_bool(); bg_scratch_row.owner = 0; bg_scratch_row.from = 0; bg_cur_adj = 0; bg_ghost_frontier.a = 0;')
     for t in ('VLabel', 'NoLabel', 'uint', 'real'):
         L.append('  bg_scratch_val_%s.valid = 0;' % t)
     if extra_harness:
